@@ -27,21 +27,42 @@ fn pick_claims(rng: &mut impl Rng) -> Vec<String> {
     v
 }
 
-fn node_cfg(rng: &mut impl Rng, mode: Mode, flavour: u64) -> Config {
+const EXTREME_TIMEOUTS: [u32; 12] = [1, 2, 59, 60, 61, 119, 120, 121, 122, 300, 4000, 65535];
+const KEYS: [&str; 3] = ["alpha", "beta", "gamma"];
+
+fn node_cfg(rng: &mut impl Rng, mode: Mode, flavour: u64, focus: &str, idx: usize) -> Config {
     let mut c = base_config(mode);
     if mode == Mode::Router {
         c.claims = pick_claims(rng);
     }
-    c.peer_timeout = if flavour % 4 == 0 { 300 } else { TIMEOUTS[rng.gen_range(0..TIMEOUTS.len())] };
+    c.peer_timeout = if focus == "C15" {
+        EXTREME_TIMEOUTS[rng.gen_range(0..EXTREME_TIMEOUTS.len())]
+    } else if flavour % 4 == 0 {
+        300
+    } else {
+        TIMEOUTS[rng.gen_range(0..TIMEOUTS.len())]
+    };
     c.switch_timeout = [5, 30, 300][rng.gen_range(0..3)];
     if rng.gen_bool(0.3) {
-        c.keepalive = Some([1, 7, 30, 100][rng.gen_range(0..4)]);
+        c.keepalive = Some(if focus == "C15" { [0, 1, 2, 59, 600, 40000][rng.gen_range(0..6)] } else { [1, 7, 30, 100][rng.gen_range(0..4)] });
     }
     if flavour % 7 == 3 {
         c.crypto.algorithms = vec!["plain".into()];
     }
-    if flavour % 5 == 4 && rng.gen_bool(0.5) {
+    if focus == "C01" {
+        // a random trust relation among three keys: own key by password, trusted set any non-empty subset (or unset)
+        use crate::crypto::Crypto;
+        c.crypto.password = Some(KEYS[rng.gen_range(0..3)].into());
+        let mask = rng.gen_range(0..8);
+        if mask != 0 {
+            c.crypto.trusted_keys = (0..3).filter(|k| mask >> k & 1 == 1).map(|k| Crypto::generate_keypair(Some(KEYS[k])).1).collect();
+        }
+    } else if flavour % 5 == 4 && rng.gen_bool(0.5) {
         c.crypto.password = Some("stranger".into()); // a node nobody trusts and that trusts nobody else
+    }
+    if focus == "C14" && rng.gen_bool(0.5) {
+        // the node is also reachable through a forwarded address which it advertises
+        c.advertise_addresses = vec![format!("[::]:{}", 50 + idx)];
     }
     c
 }
@@ -57,17 +78,38 @@ fn frame_for<P: Protocol>(router: bool, rng: &mut impl Rng, i: usize) -> Vec<u8>
     }
 }
 
-fn one<P: Protocol>(run: u64, stream: u64, mode: Mode, steps: u64) -> Vec<String> {
+fn one<P: Protocol>(run: u64, stream: u64, mode: Mode, steps: u64, focus: &str) -> Vec<String> {
     let mut rng = rng(stream);
     let mut sim: Sim<P> = Sim::new(stream);
     sim.trace_on();
     sim.budget = 40;
     let router = mode == Mode::Router;
-    let n = 2 + (run % 3) as usize;
-    for _ in 0..n {
-        let c = node_cfg(&mut rng, mode, run);
+    let n = if focus == "C14" { 3 + (run % 4) as usize } else { 2 + (run % 3) as usize };
+    for k in 0..n {
+        let c = node_cfg(&mut rng, mode, run, focus, k);
+        for a in &c.advertise_addresses {
+            sim.alias.insert(a.parse().unwrap(), k as u16 + 1);
+        }
+        if focus == "C14" && c.advertise_addresses.is_empty() && rng.gen_bool(0.4) {
+            // address translation: the others see this node at an address it does not know itself
+            let ext = addr_of(60 + k as u16);
+            sim.alias.insert(ext, k as u16 + 1);
+            sim.seen_as.insert(k as u16 + 1, ext);
+        }
         sim.add_node(false, &c);
     }
+    // sessions negotiated as "plain" are not authenticated at all (C02's explicit exception): anything injected there is
+    // accepted by design and poisons what the nodes tell each other, so plain runs get faults but no attacker
+    let plain_run = run % 7 == 3;
+    // where the random steps put their weight
+    let (w_iface, w_restart, w_replay, w_forge) = match focus {
+        "C01" => (5, 4, 8, 25),
+        "C08" => (5, 3, 10, 30),
+        "C09" => (12, 3, 25, 12),
+        "C10" => (30, 4, 5, 5),
+        "C12" => (12, 14, 5, 4),
+        _ => (15, 6, 7, 6),
+    };
     // bootstrap: a random connected dial pattern, sometimes a configured (reconnect) peer
     for i in 1..n {
         let j = rng.gen_range(0..i);
@@ -93,6 +135,24 @@ fn one<P: Protocol>(run: u64, stream: u64, mode: Mode, steps: u64) -> Vec<String
             }
         }
         let x = rng.gen_range(0..100);
+        let x = if x >= 45 {
+            // re-draw the non-tick steps with the focus weights: iface / restart / replay / forge / the rest as before
+            let y = rng.gen_range(0..(w_iface + w_restart + w_replay + w_forge + 20));
+            if y < w_iface {
+                50
+            } else if y < w_iface + w_restart {
+                62
+            } else if y < w_iface + w_restart + w_replay {
+                80
+            } else if y < w_iface + w_restart + w_replay + w_forge {
+                86
+            } else {
+                [68, 74, 92, 95, 98][rng.gen_range(0..5)]
+            }
+        } else {
+            x
+        };
+        let x = if plain_run && (77..90).contains(&x) { 50 } else { x };
         if x < 45 {
             let k = [1, 1, 2, 3, 10, 40, 125][rng.gen_range(0..7)];
             for _ in 0..k {
@@ -107,7 +167,8 @@ fn one<P: Protocol>(run: u64, stream: u64, mode: Mode, steps: u64) -> Vec<String
             sim.deliver_due();
         } else if x < 66 {
             let i = rng.gen_range(0..n);
-            let c = node_cfg(&mut rng, mode, run + 1);
+            let mut c = node_cfg(&mut rng, mode, run + 1, focus, i);
+            c.advertise_addresses = sim.nodes[i].cfg.advertise_addresses.clone();
             sim.restart(i, Some(&c));
             let j = (i + 1 + rng.gen_range(0..n - 1)) % n;
             let addr = sim.nodes[j].addr;
@@ -147,7 +208,9 @@ fn one<P: Protocol>(run: u64, stream: u64, mode: Mode, steps: u64) -> Vec<String
                 }
                 b
             } else {
-                let len = rng.gen_range(0..60);
+                // (a handshake marker followed by fewer bytes than any header would be completed by the stale bytes
+                //  behind it in the receive buffer - the recorded C01 finding; junk is therefore empty or >= 12 bytes)
+                let len = if rng.gen_bool(0.1) { 0 } else { rng.gen_range(12..if focus == "C08" { 400 } else { 60 }) };
                 let mut b: Vec<u8> = (0..len).map(|_| rng.gen()).collect();
                 if len > 0 && rng.gen_bool(0.5) {
                     b[0] = [0xff, 0, 1, 2, 3][rng.gen_range(0..5)];
@@ -182,15 +245,15 @@ fn one<P: Protocol>(run: u64, stream: u64, mode: Mode, steps: u64) -> Vec<String
     t
 }
 
-pub fn run(tier: &str, out_path: &str, first: u64, count: u64) -> Value {
+pub fn run(tier: &str, out_path: &str, first: u64, count: u64, focus: &str) -> Value {
     let (runs, steps): (u64, u64) = if count > 0 { (count, 60) } else if tier == "quick" { (36, 60) } else { (600, 120) };
     let ids: Vec<u64> = (first..first + runs).collect();
     let results = parallel_map(&ids, |_, k| {
         let stream = 77000 + *k + seed() * 1_000_000;
         match *k % 3 {
-            0 => one::<Packet>(*k, stream, Mode::Router, steps),
-            1 => one::<Frame>(*k, stream, Mode::Switch, steps),
-            _ => one::<Frame>(*k, stream, Mode::Hub, steps),
+            0 => one::<Packet>(*k, stream, Mode::Router, steps, focus),
+            1 => one::<Frame>(*k, stream, Mode::Switch, steps, focus),
+            _ => one::<Frame>(*k, stream, Mode::Hub, steps, focus),
         }
     });
     let mut lines = 0usize;
